@@ -11,7 +11,7 @@ import numpy as np
 from lerax.algorithm import DQN, SAC
 
 from . import tables as tb
-from .drive_onpolicy import Recorder, act_code, logging_callback, proj_stats, SD
+from .drive_onpolicy import Recorder, act_code, clear_records, logging_callback, proj_stats, record_summary, SD
 from lerax.callback import CallbackList
 from .drive_env import rew_int
 
@@ -78,7 +78,7 @@ def record_offpolicy(cache: tb.EnvCache, cfg: dict, algo_name: str, iters: int, 
     logcb, backend = logging_callback(cfg.get("an", 2))
     cb = CallbackList([Recorder(), logcb])
     k0, k1 = jr.split(jr.key(seed))
-    del backend.records[:]
+    clear_records(backend)
     state = _reset(algo, env, policy, k0, cb)
     dones = [0] * N
     ZST = dict(step=0, ret=0, len=0, latch=False, avgR=0, avgL=0)
@@ -99,14 +99,11 @@ def record_offpolicy(cache: tb.EnvCache, cfg: dict, algo_name: str, iters: int, 
             last_pos[e] = pos
             st = tb.proj_env_state(s1.env_state, depth)
             jax.effects_barrier()
-            recs = [r for r in backend.records if r[0] == "scalars"]
             dones[e] = sum(1 for x in streams[e] if x["ev"] == "row" and x["done"])
             streams[e].append(dict(ev="snap", k=k, pos=pos, s=st["s"], cnt=st["cnt"], ps=int(s1.policy_state.n),
                                    obs=0, nobs=0, act=0, rew=0, done=False, timeout=False, pstate=0,
                                    stats=proj_stats(s1.callback_state.states[1]), dones=dones[e],
-                                   record=({"n_records": len(recs), "step": recs[-1][2],
-                                            "retN": int(round(recs[-1][1]["episode/return"] * N * SD)),
-                                            "lenN": int(round(recs[-1][1]["episode/length"] * N * SD))} if recs else None)))
+                                   record=record_summary(backend, N)))
 
     snap(0, state)
     for it, k in enumerate(jr.split(k1, iters)):
